@@ -73,7 +73,7 @@ impl Check for C11 {
         "Programs `|x, y| { prefix, project |x| (or |x, y|) { body } }` with two query variables. Prefixes make 1..n states reach the SAME project goal object: member over 2-4 values, conde of bindings (incl. x bound to a list holding y), x bound to a shared structured term ([y, 10], Pair(y, 1), [0 | y]) whose inner variable is bound differently per branch, two members (product of states), x unbound, and an infinite loop prefix (first 8 answers). Bodies of 1-4 goals use the projected value (q == x, q == [x | x], q != x, conde, nested project on y), half of them behind a multi-answer goal so that the rest of the body is suspended and resumed after other states have reached the project goal. Monitors: M-proj, built into every project body at its start and end: walk*(projected term) == walk*(original variable) in the state that runs the body; the answers equal the reference's (project = walk*) as multisets (soundness of a prefix for the infinite lane); the same Query value run twice gives the same answers; no panic. Distinct = distinct program text; non-trivial = the project goal was reached by at least 2 states."
     }
     fn assumptions(&self) -> Vec<String> {
-        vec!["M-proj lives in the harness's builder, which mirrors the macro expansion of project (variables cloned at construction, body built per state by the closure)".into()]
+        vec!["M-proj lives in the body that the harness hands to the real `project |..| { .. }` macro as a Rust-expression clause (1-3 projected variables)".into()]
     }
     fn floor(&self, tier: Tier) -> u64 {
         match tier {
